@@ -80,7 +80,7 @@ def make_wifi_data(ssid, password=None, security=None, hidden=False):
     escape = _escape_mecard
     data = 'WIFI:'
     if security:
-        data += f'T:{security.upper() if security != "nopass" else security};'
+        data += f'T:{escape(security.upper() if security != "nopass" else security)};'
     data += f'S:{escape(ssid)};'
     if password is not None:
         data += f'P:{escape(password)};'
@@ -168,7 +168,7 @@ def make_mecard_data(name, reading=None, email=None, phone=None, videophone=None
             birthday = birthday.strftime('%Y%m%d')
         except AttributeError:
             pass
-        data.append(f'BDAY:{birthday};')
+        data.append(f'BDAY:{escape(birthday)};')
     data.extend(make_multifield('URL', url))
     adr_properties = (pobox, roomno, houseno, city, prefecture, zipcode, country)
     if any(adr_properties):
